@@ -1397,6 +1397,15 @@ where
     #[inline(always)]
     fn skip_number_unsafe(&mut self) -> Result<()> {
         let _ = self.get_next_token([b']', b'}', b','], 0);
+        // the number ends before any whitespace in front of the delimiter (or the end of input)
+        while self.read.index() > 0
+            && matches!(
+                self.read.at(self.read.index() - 1),
+                b' ' | b'\t' | b'\n' | b'\r'
+            )
+        {
+            self.read.backward(1);
+        }
         Ok(())
     }
 
